@@ -5,6 +5,7 @@ package machine
 
 import (
 	"context"
+	"errors"
 	"fmt"
 	"image"
 	"os"
@@ -83,8 +84,9 @@ type Machine struct {
 	SerialParks     int
 	DoneCalls       int // number of times Run evaluated ctx.Done()
 
-	SerialOut []byte
-	SerialAt  []uint64
+	SerialOut    []byte
+	SerialAt     []uint64
+	SerialClosed int // number of times the emulator closed the caller's serial writer
 
 	ctx     *SimContext
 	stopAt  uint64
@@ -222,11 +224,21 @@ func (s serialRec) Write(p []byte) (int, error) {
 		co.inWriter = false
 		co.stopAt = s.m.N + k
 	}
+	if s.m.SerialClosed > 0 {
+		return 0, errors.New("serial writer: write after Close")
+	}
 	for _, b := range p {
 		s.m.SerialOut = append(s.m.SerialOut, b)
 		s.m.SerialAt = append(s.m.SerialAt, s.m.N)
 	}
 	return len(p), nil
+}
+
+// Close makes the recorder a closable writer like a file: it belongs to the caller, and whoever closes
+// it ends the transcript (writes after that fail).
+func (s serialRec) Close() error {
+	s.m.SerialClosed++
+	return nil
 }
 
 var scratchDir string
